@@ -146,7 +146,7 @@ def find_maxima(img, min_distance: float, min_intensity: float):
     structure = np.stack([s0, s1, s0])
     label_img, nfeat = ndi.label(is_maxima, structure=structure)
     centers = ndi.center_of_mass(img, label_img, range(1, nfeat + 1))
-    return np.array(centers, dtype=np.float32)
+    return np.array(centers, dtype=np.float32).reshape(-1, 3)
 
 
 def simple_pick(img: NDArray[np.float32], pos: NDArray[np.float32]):
